@@ -51,7 +51,7 @@ func (ev *Eval) Run(t *gen.Term) (*V, *Fail) {
 	v, f := ev.run(t)
 	if ev.RecOn && f == nil {
 		switch t.Op {
-		case "var", "call", "sub", "mem":
+		case "var", "call", "sub", "mem", "dcall":
 			ev.Rec = append(ev.Rec, RecEvent{t, v})
 		}
 	}
@@ -160,6 +160,33 @@ func (ev *Eval) run(t *gen.Term) (*V, *Fail) {
 			return nil, fail("internal", "no field %s", t.Name)
 		}
 		return v, nil
+	case "dcall":
+		// a call whose callee is an expression yielding a function value: the callee is evaluated
+		// first, then the arguments (deferred for a lazy function, in order otherwise)
+		fv, f := ev.Run(t.Args[0])
+		if f != nil {
+			return nil, f
+		}
+		if fv.Fn == nil {
+			return nil, fail("internal", "callee is not a function value")
+		}
+		if fv.Fn.Lazy {
+			ths := make([]Thunk, len(t.Args)-1)
+			for i, a := range t.Args[1:] {
+				a := a
+				ths[i] = func() (*V, *Fail) { return ev.Run(a) }
+			}
+			return fv.Fn.LazyImpl(ev, ths)
+		}
+		args := make([]*V, len(t.Args)-1)
+		for i, a := range t.Args[1:] {
+			v, f := ev.Run(a)
+			if f != nil {
+				return nil, f
+			}
+			args[i] = v
+		}
+		return fv.Fn.Impl(ev, args)
 	case "call":
 		sig := ev.Res[t]
 		if sig == nil {
